@@ -83,7 +83,15 @@ func main() {
 		for _, sc := range eng.Scenarios {
 			for _, pr := range sc.Props {
 				if pr == "C18" {
-					msgs := sc.Run()
+					var msgs []string
+					func() {
+						defer func() {
+							if p := recover(); p != nil {
+								msgs = append(msgs, fmt.Sprintf("scenario panicked: %v", p))
+							}
+						}()
+						msgs = sc.Run()
+					}()
 					if msgs == nil {
 						msgs = []string{}
 					}
